@@ -17,6 +17,20 @@ EXHAUSTIVE = {"quick": False, "thorough": True}   # thorough: every n in 1..64 i
 # symmetry given as a number that is not a Python int: float(n), np.int64(n), np.float64(n) (accepted since fix: f9fba9c, D24)
 FLOAT_FORMS = True
 TOL = 1e-9          # absolute, poses (matrix entries) and positions
+GIMBAL_EPS = 1e-7   # scipy as_euler: |theta| <= 1e-7 rad (or |theta - pi| <= 1e-7) is treated as gimbal lock
+
+
+def _orient_tol(want):
+    """H4 — tolerance for an orientation REBUILT FROM THE REPORTED EULER ANGLES, following the conditioning of scipy's `as_euler('zxz')`:
+    with theta the polar angle of the expected rotation `want` (sin theta = |(want[2,0], want[2,1])|), as_euler treats |theta| <= 1e-7 rad
+    (and |theta - pi| <= 1e-7) as gimbal lock, puts the whole azimuth into one angle and sets the other to 0 while KEEPING theta: the triple it
+    returns is Rz(0)Rx(theta)Rz(phi+psi) instead of Rz(psi)Rx(theta)Rz(phi); the two differ by at most 2 sin(theta) per matrix entry
+    (|Rz(psi)Rx(theta)Rz(-psi) - Rx(theta)| <= 2 sin(theta); measured: exactly 2.0 sin(theta) at worst, /tmp/w5 gimbal probe, 12800 triples),
+    i.e. <= 2e-7 — a representation limit of the Euler triple next to the pole, not a statement about cryoCAT. Outside that zone the
+    extraction is backward stable (measured 1.4e-15) and the tolerance stays 1e-9. The zone is entered with 1% margin on sin(theta)
+    (sin(theta) itself carries an absolute error of ~1e-16, relative 1e-9 at the border)."""
+    st = math.hypot(float(want[2][0]), float(want[2][1]))
+    return TOL + (2.0 * st + 1e-12 if st <= 1.01 * GIMBAL_EPS else 0.0)
 TIE_MARGIN = 1e-6   # distance of a pre-rounding coordinate from k+1/2 below which the rounding direction is not compared
 
 FIELDS = ["score", "geom1", "geom2", "subtomo_id", "tomo_id", "object_id", "subtomo_mean", "x", "y", "z",
@@ -31,14 +45,22 @@ RULE = ("particle lists of N in 1..100 particles (subtomo_ids unique in random r
         "parents, thorough every n in every form) x offset s (generic, on the z axis, zero, in the xy plane, large) handed over as ndarray / list / tuple; "
         "a share of cases are SESSIONS: 2-3 calls in one process on the same Motl object with the offset in the same ndarray rewritten in place, the same n repeated after an "
         "offset of non-zero azimuth, every call judged alike and the caller-owned frame and offset compared before/after; "
+        "H3 streams: integer-typed columns (int64 shifts / angles / coordinates / ids / every column — what a STAR file of whole numbers is read as), non-default row labels "
+        "(reversed, shuffled, offset, with gaps, duplicated, all equal, negative — `Motl(df)` keeps them), offsets as int list / int tuple / int64 array, decimal values with 1-3 "
+        "decimals (angles, coordinates, shifts, offsets), parents with theta next to 0/180 on both sides of scipy's gimbal threshold (|theta| <= 1e-7 rad); a small share of numeric "
+        "arguments OUTSIDE the statement (n + fraction, 0, negative, NaN, inf) judged against the Lean model of int() only (kind corr); "
         "non-trivial = N>=2 and n>=2 and s off the axis and at least one parent with theta not a multiple of 180; distinct = distinct (calls, rows) content")
 ASSUMPTIONS = [
     "scipy Rotation.from_euler('zxz', degrees=True) is the matrix Rz(psi)Rx(theta)Rz(phi); `*` is matrix product; apply is matrix-vector product "
     "(probed every run against the harness's own matrices)",
     "scipy as_euler('zxz') returns a triple whose from_euler matrix is the rotation it was given (probed every run, incl. gimbal lock); the "
-    "output orientation is therefore compared as a matrix (tol 1e-9), not as three angles",
-    "numpy float64 cos/sin/arctan2/sqrt and the polar form rho*(cos,sin)(atan2(sy,sx)+phi_k) agree with the exact rotation Rz(phi_k)s to 1e-9 "
-    "(the model applies the matrix; compared on every case)",
+    "output orientation is therefore compared as a matrix, not as three angles; tolerance 1e-9, and 1e-9 + 2 sin(theta) where the expected rotation has "
+    "0 < |sin theta| <= 1e-7: there as_euler declares gimbal lock and returns Rz(0)Rx(theta)Rz(phi+psi), off by at most 2 sin(theta) <= 2e-7 (probed every run)",
+    "numpy float64 sqrt/arctan2/deg2rad/cos/sin agree with the Lean runtime's (libm) to 1e-9 in the polar form rho*(cos,sin)(atan2(sy,sx)+deg2rad(phi_k)) — the driver now "
+    "executes that very form (`expandP`); that it equals the rotation Rz(phi_k)s is PROVED (`centerShift_eq`, over R: `real_expandP_eq`), no longer assumed",
+    "Python int() on a finite float/int = truncation toward zero of its exact value (Lean `truncInt`), raises on NaN/inf (compared on the numeric forms, incl. n+fraction and "
+    "refused values outside the statement)",
+    "pandas: `Motl(df)` keeps dtypes and row labels of the frame it is given; `frame[[cols]] = ndarray` replaces whole columns (any previous dtype), positional",
     "decimal.Decimal(x).to_integral_value(ROUND_HALF_UP) on a float x = rounding of the EXACT binary value half away from zero = Lean ratRound on that value (probed every "
     "run incl. ties and 0.49999999999999994; compared exactly on every case with zero offset; coordinates whose pre-rounding value lies within 1e-6 of k+1/2 after a "
     "non-zero real offset are compared on the complete position only)",
@@ -47,23 +69,24 @@ ASSUMPTIONS = [
     "strings: only ASCII digits are generated (Python's \\d and int() also accept other Unicode decimal digits; not modelled)",
 ]
 TRUSTED = ["harness zxz matrix (props/c10.py _zxz) used to read the implementation's output orientation",
-           "Float cos/sin of the Lean runtime (libm) inside the driver's `trig`; tolerance 1e-9",
+           "Float cos/sin/sqrt/atan2 of the Lean runtime (libm) inside the driver's `trig` / `polar`; tolerance 1e-9",
            "driver ratOfFloat (exact rational value of a binary64) feeding the proved ratRound"]
 
 REL = "cryocat/cryomotl.py"
 FN = "Motl.split_in_asymmetric_subunits"
 
 DOC = dict(
-    fullTurnDeg=360, stepExpr="360/nfold", nSubunitsExpr="nfold", phiExpr="np.arange(n_subunits)*inplane_step", phiSlot=0,
-    parentSrc="subtomo_id", parentDst="geom5", indexDst="geom2", indexStart=1, indexStopExpr="n_subunits+1",
+    fullTurnDeg=360, stepExpr="360/nfold", nSubunitsExpr="nfold", phiExpr="inplane_step*np.arange(n_subunits)", phiSlot=0,
+    parentSrc="subtomo_id", parentDst="geom5", indexDst="geom2", indexStart=1, indexStopExpr="1+n_subunits",
     sortKey="subtomo_id", sortKind="stable", expandExpr="self.df.iloc[np.repeat(parent_order,n_subunits)].copy()",
-    idDst="subtomo_id", idStart=1, idStopExpr="len(new_motl_df)+1", signature=["self", "symmetry", "xyz_shift"],
+    idDst="subtomo_id", idStart=1, idStopExpr="1+len(new_motl_df)", signature=["self", "symmetry", "xyz_shift"],
     eulerSeqs=["zxz", "zxz", "zxz"], eulerDegrees=[True, True, True], parentAngles=["phi", "theta", "psi"],
     composeLeft="rotations", composeRight="rot.from_euler", shiftFields=["shift_x", "shift_y", "shift_z"],
-    shiftRhs="new_motl_df.loc[:,['shift_x','shift_y','shift_z']]+rotations.apply(center_shift)",
+    shiftRhs="new_motl_df[['shift_x','shift_y','shift_z']].to_numpy()+rotations.apply(center_shift)",
+    angleFieldsOut=["phi", "theta", "psi"],
     rhoExpr="np.sqrt(starting_vector[0]**2+starting_vector[1]**2)", theExpr="np.arctan2(starting_vector[1],starting_vector[0])",
-    repTheExpr="np.full((n_subunits,),the)+np.deg2rad(phi_angles)", repZExpr="np.full((n_subunits,),starting_vector[2])",
-    polarExprs=["rot_rho*np.cos(rep_the)", "rot_rho*np.sin(rep_the)", "rep_z"],
+    repTheExpr="np.deg2rad(phi_angles)+np.full((n_subunits,),the)", repZExpr="np.full((n_subunits,),starting_vector[2])",
+    polarExprs=["np.cos(rep_the)*rot_rho", "np.sin(rep_the)*rot_rho", "rep_z"],
     strNfoldExpr="int(re.findall('\\d+',symmetry)[-1])", cyclicPrefixTest="symmetry.lower().startswith('c')",
     numericTypes=["int", "float", "np.integer", "np.floating"], numericNfoldExpr="int(symmetry)", cyclicTypeCode=1,
     callsUpdate=True, roundingModes=["ROUND_HALF_UP"] * 3,
@@ -90,6 +113,8 @@ def _bound_names(fn):
     order = []
 
     def add(n):
+        if n == "_":       # H2: a discard is not a local with a role; every `_` stays `_` and never shifts the roles of the others
+            return
         if n not in params and n not in order:
             order.append(n)
 
@@ -130,9 +155,10 @@ def _alpha(fn, roles, inner=None):
     """copy of the function with its i-th bound local renamed to roles[i] (surplus locals: `_local<i>`); `inner` maps the role name of a
     nested function to the roles of ITS locals. Nested functions see the outer renaming too (closures)."""
     import copy
-    fn = copy.deepcopy(fn)
+    fn = _strip_annotations(copy.deepcopy(fn))
     names = _bound_names(fn)
     ren = {n: (roles[i] if i < len(roles) else f"_local{i}") for i, n in enumerate(names)}
+    fn._orig = {v: k for k, v in ren.items()}      # role name -> identifier in the source (for messages)
 
     class R(ast.NodeTransformer):
         def visit_Name(self, n):
@@ -144,11 +170,64 @@ def _alpha(fn, roles, inner=None):
             self.generic_visit(n)
             return n
     R().visit(fn)
+    _canon_commutative(fn)
     if inner:
         for i, st in enumerate(fn.body):
             if isinstance(st, ast.FunctionDef) and st.name in inner:
                 fn.body[i] = _alpha(st, inner[st.name])
+                fn._orig.update(fn.body[i]._orig)
     return fn
+
+
+def _provably_numeric(x):
+    """a number or an ndarray/numpy scalar by construction: numeric literal (also negated) or a call of a `np.` function"""
+    if isinstance(x, ast.Constant):
+        return isinstance(x.value, (int, float)) and not isinstance(x.value, bool)
+    if isinstance(x, ast.UnaryOp) and isinstance(x.op, (ast.USub, ast.UAdd)):
+        return _provably_numeric(x.operand)
+    return isinstance(x, ast.Call) and core.norm_expr(x.func).startswith("np.")
+
+
+def _canon_commutative(fn):
+    """`a * b` and `a + b` with a provably numeric operand (literal / `np.` call) are put in a canonical operand order (sorted text, after the
+    alpha-renaming): IEEE multiplication and addition of numbers / arrays are commutative BIT FOR BIT, so `np.arange(n) * step` and
+    `step * np.arange(n)` are the same program (work list item 4). Products of two names / attribute calls — `rotations * rot.from_euler(...)`,
+    where `*` is the non-commutative composition of rotations — have no provably numeric operand and are left exactly as written."""
+    for n in ast.walk(fn):
+        if isinstance(n, ast.BinOp) and isinstance(n.op, (ast.Mult, ast.Add)) and (_provably_numeric(n.left) or _provably_numeric(n.right)):
+            if ast.unparse(n.right).replace(" ", "") < ast.unparse(n.left).replace(" ", ""):
+                n.left, n.right = n.right, n.left
+    return fn
+
+
+def _strip_annotations(fn):
+    """H1: type hints are not structure — drop argument / return annotations (also of nested functions), turn `x: T = v` into `x = v`
+    and drop a bare declaration `x: T`"""
+    class S(ast.NodeTransformer):
+        def visit_FunctionDef(self, n):
+            a = n.args
+            for x in a.posonlyargs + a.args + a.kwonlyargs + ([a.vararg] if a.vararg else []) + ([a.kwarg] if a.kwarg else []):
+                x.annotation = None
+            n.returns = None
+            self.generic_visit(n)
+            if not n.body:
+                n.body = [ast.Pass()]
+            return n
+        visit_AsyncFunctionDef = visit_FunctionDef
+
+        def visit_AnnAssign(self, n):
+            if n.value is None:
+                return None
+            return ast.copy_location(ast.Assign(targets=[n.target], value=n.value), n)
+    fn = S().visit(fn)
+    for n in ast.walk(fn):      # a block emptied by dropping bare declarations
+        for fld in ("body", "orelse", "finalbody"):
+            if isinstance(getattr(n, fld, None), list) and fld == "body" and not getattr(n, fld) and not isinstance(n, ast.Module):
+                setattr(n, fld, [ast.Pass()])
+    return ast.fix_missing_locations(fn)
+
+
+_MSG_CALLS = ("Error", "Exception", "Warning", "warn", "warning", "info", "debug", "error", "critical", "print", "log")
 
 
 def _dump(fn):
@@ -163,9 +242,17 @@ def _dump(fn):
         for st in f.body:
             if isinstance(st, ast.FunctionDef): strip(st)
     strip(fn)
-    for n in ast.walk(fn):   # the wording of error / warning messages is not structure
-        if isinstance(n, ast.Call) and (core.norm_expr(n.func).endswith("Error") or core.norm_expr(n.func).endswith("warn")):
-            n.args = [ast.Constant("<msg>") if isinstance(x, ast.Constant) and isinstance(x.value, str) else x for x in n.args]
+    def is_text(x):
+        if isinstance(x, ast.JoinedStr) or (isinstance(x, ast.Constant) and isinstance(x.value, str)):
+            return True
+        if isinstance(x, ast.BinOp) and isinstance(x.op, (ast.Add, ast.Mod)):      # "..." + str(v), "... %s" % v
+            return is_text(x.left)
+        if isinstance(x, ast.Call) and isinstance(x.func, ast.Attribute) and x.func.attr == "format":   # "...{}".format(v)
+            return is_text(x.func.value)
+        return False
+    for n in ast.walk(fn):   # H1: the wording of error / warning / log messages is not structure
+        if isinstance(n, ast.Call) and core.norm_expr(n.func).split(".")[-1].endswith(_MSG_CALLS):
+            n.args = [ast.Constant("<msg>") if is_text(x) else x for x in n.args]
     out = []
     for line in ast.unparse(fn).splitlines():
         body = line.lstrip(" ")
@@ -194,11 +281,11 @@ BODY_DOC = [
     ">inplane_step=360/nfold",
     ">ifs_type==1:",
     ">>n_subunits=nfold",
-    ">>phi_angles=np.arange(n_subunits)*inplane_step",
+    ">>phi_angles=inplane_step*np.arange(n_subunits)",
     ">>new_angles=np.zeros((n_subunits,3))",
     ">>new_angles[:,0]=phi_angles",
     ">elifs_type==2:",
-    ">>n_subunits=nfold*2",
+    ">>n_subunits=2*nfold",
     ">>in_plane_offset=int(inplane_step/2)",
     ">>new_angles=np.zeros((n_subunits,3))",
     ">>new_angles[0::2,0]=np.arange(0,360,int(inplane_step))",
@@ -210,26 +297,26 @@ BODY_DOC = [
     ">rho=np.sqrt(starting_vector[0]**2+starting_vector[1]**2)",
     ">the=np.arctan2(starting_vector[1],starting_vector[0])",
     ">rot_rho=np.full((n_subunits,),rho)",
-    ">rep_the=np.full((n_subunits,),the)+np.deg2rad(phi_angles)",
+    ">rep_the=np.deg2rad(phi_angles)+np.full((n_subunits,),the)",
     ">rep_z=np.full((n_subunits,),starting_vector[2])",
     ">ifs_type==2:",
     ">>rep_z[1::2]*=-1",
     ">center_shift=np.zeros([rot_rho.shape[0],3])",
-    ">center_shift[:,0]=rot_rho*np.cos(rep_the)",
-    ">center_shift[:,1]=rot_rho*np.sin(rep_the)",
+    ">center_shift[:,0]=np.cos(rep_the)*rot_rho",
+    ">center_shift[:,1]=np.sin(rep_the)*rot_rho",
     ">center_shift[:,2]=rep_z",
     ">parent_order=np.argsort(self.df['subtomo_id'].to_numpy(),kind='stable')",
     ">new_motl_df=self.df.iloc[np.repeat(parent_order,n_subunits)].copy()",
     ">new_motl_df['geom5']=new_motl_df['subtomo_id']",
-    ">new_motl_df['geom2']=np.tile(np.arange(1,n_subunits+1).reshape(n_subunits,1),(len(self.df),1))",
+    ">new_motl_df['geom2']=np.tile(np.arange(1,1+n_subunits).reshape(n_subunits,1),(len(self.df),1))",
     ">euler_angles=new_motl_df[['phi','theta','psi']]",
     ">rotations=rot.from_euler(seq='zxz',angles=euler_angles,degrees=True)",
     ">center_shift=np.tile(center_shift,(len(self.df),1))",
     ">new_angles=np.tile(new_angles,(len(self.df),1))",
-    ">new_motl_df.loc[:,['shift_x','shift_y','shift_z']]=new_motl_df.loc[:,['shift_x','shift_y','shift_z']]+rotations.apply(center_shift)",
+    ">new_motl_df[['shift_x','shift_y','shift_z']]=new_motl_df[['shift_x','shift_y','shift_z']].to_numpy()+rotations.apply(center_shift)",
     ">new_rotations=rotations*rot.from_euler(seq='zxz',angles=new_angles,degrees=True)",
-    ">new_motl_df.loc[:,['phi','theta','psi']]=new_rotations.as_euler(seq='zxz',degrees=True)",
-    ">new_motl_df['subtomo_id']=np.arange(1,len(new_motl_df)+1)",
+    ">new_motl_df[['phi','theta','psi']]=new_rotations.as_euler(seq='zxz',degrees=True)",
+    ">new_motl_df['subtomo_id']=np.arange(1,1+len(new_motl_df))",
     ">new_motl=Motl(new_motl_df)",
     ">new_motl.update_coordinates()",
     ">new_motl.df.reset_index(inplace=True,drop=True)",
@@ -292,12 +379,30 @@ def translate(src):
     def assigns():
         return _assigns(fn())
 
+    def orig(role):
+        """H2: how a role name is spelled in the source today, for messages"""
+        try:
+            o = fn()._orig.get(role)
+        except Exception:
+            o = None
+        return f"`{o}`" if o and o == role else (f"`{o}` (role {role})" if o else f"(role {role}: no such local in the source)")
+
+    def show(text):
+        """alpha-renamed expression text with the identifiers of the source put back"""
+        import re as _re
+        try:
+            m = fn()._orig
+        except Exception:
+            return text
+        return _re.sub(r"[A-Za-z_][A-Za-z_0-9]*", lambda g: m.get(g.group(0), g.group(0)), text)
+
     def only(target, cond=None):
         """the unique assignment to `target` (under cond); several different ones are not guessed between"""
         def f():
             hits = [v for (t, v, c) in assigns() if t == target and (cond is None or c == cond)]
             if len(hits) != 1:
-                raise A(f"{FN}: expected exactly one assignment to {target}" + (f" under `{cond}`" if cond else "") + f", found {len(hits)}")
+                raise A(f"{FN}: expected exactly one assignment to {show(target)}" + (f" under `{show(cond)}`" if cond else "") + f", found {len(hits)}"
+                        + (f" (role name {target})" if show(target) != target else ""))
             return hits[0]
         return f
 
@@ -321,8 +426,13 @@ def translate(src):
             d = _dump(getter())
             if d != doc:
                 k = next((i for i, (x, y) in enumerate(zip(d, doc)) if x != y), min(len(d), len(doc)))
-                raise A(f"{label}: normalised body differs from the documented one at entry {k}: found {d[k] if k < len(d) else '<end>'!r}, "
-                        f"documented {doc[k] if k < len(doc) else '<end>'!r}")
+                m = getattr(getter(), "_orig", {})
+                import re as _re
+                back = lambda s: _re.sub(r"[A-Za-z_][A-Za-z_0-9]*", lambda g: m.get(g.group(0), g.group(0)), s)
+                found = d[k] if k < len(d) else "<end>"
+                raise A(f"{label}: normalised body differs from the documented one at entry {k}: found {found!r}"
+                        + (f" (in the source's own names: {back(found)!r})" if back(found) != found else "")
+                        + f", documented {doc[k] if k < len(doc) else '<end>'!r}")
             return d
         return f
     # whole-body dumps: the Lean side compares the text actually found (also when it differs) with the documented literal
@@ -338,7 +448,7 @@ def translate(src):
     def step():
         v = only("inplane_step")()
         if not (isinstance(v, ast.BinOp) and isinstance(v.op, ast.Div) and isinstance(v.left, ast.Constant) and isinstance(v.left.value, int)):
-            raise A(f"{FN}: inplane_step = <int> / nfold")
+            raise A(f"{FN}: {orig('inplane_step')} = <int> / {orig('nfold')} (found `{show(core.norm_expr(v))}`)")
         return [int(v.left.value), core.norm_expr(v)]
     put(["fullTurnDeg", "stepExpr"], "inplane_step=360/nfold", step)
     cyc = "s_type==1"   # the cyclic branch; `cyclicTypeCode` (below) ties the 1 to what the symmetry parser assigns
@@ -369,13 +479,13 @@ def translate(src):
     def order():
         v = only("parent_order")()
         if not (call_of(v, "np.argsort") and len(v.args) == 1):
-            raise A(f"{FN}: parent_order = np.argsort(self.df[<field>].to_numpy(), kind=...)")
+            raise A(f"{FN}: {orig('parent_order')} = np.argsort(self.df[<field>].to_numpy(), kind=...) (found `{show(core.norm_expr(v))}`)")
         kw = {k.arg: k.value for k in v.keywords}
         if set(kw) != {"kind"}:
-            raise A(f"{FN}: np.argsort(..., kind=<literal>) and no other keyword (found {sorted(map(str, kw))})")
+            raise A(f"{FN}: np.argsort(..., kind=<literal>) and no other keyword (found keywords {sorted(map(str, kw))} in `{orig('parent_order')[1:].split('`')[0]} = {show(core.norm_expr(v))}`)")
         a = core.norm_expr(v.args[0])
         if not (a.startswith("self.df['") and a.endswith("'].to_numpy()")):
-            raise A(f"{FN}: argsort over self.df[<field>].to_numpy()")
+            raise A(f"{FN}: argsort over self.df[<field>].to_numpy() (found `{show(core.norm_expr(v))}`)")
         return [a[len("self.df['"):-len("'].to_numpy()")], str(src.literal(kw["kind"]))]
     put(["sortKey", "sortKind"], "parent_order=argsort(ids,kind='stable')", order)
 
@@ -400,14 +510,14 @@ def translate(src):
         a = arange_args(v, "geom2")
         t = core.norm_expr(v)
         if not (t.startswith("np.tile(") and t.endswith(",(len(self.df),1))")):
-            raise A(f"{FN}: geom2 = np.tile(<per-parent indices>, (len(self.df), 1))")
+            raise A(f"{FN}: geom2 = np.tile(<per-parent indices>, (len(self.df), 1)) (found `{show(t)}`)")
         return a + ["geom2"]
     put(["indexStart", "indexStopExpr", "indexDst"], "geom2=tile(arange(1,n+1))", index)
 
     def ids():
         v = only("new_motl_df['subtomo_id']")()
         if not call_of(v, "np.arange"):
-            raise A(f"{FN}: subtomo_id = np.arange(...)")
+            raise A(f"{FN}: subtomo_id = np.arange(...) (found `{show(core.norm_expr(v))}`)")
         return arange_args(v, "subtomo_id") + ["subtomo_id"]
     put(["idStart", "idStopExpr", "idDst"], "subtomo_id=arange(1,len+1)", ids)
 
@@ -435,7 +545,7 @@ def translate(src):
     def compose():
         v = only("new_rotations")()
         if not (isinstance(v, ast.BinOp) and isinstance(v.op, ast.Mult) and isinstance(v.right, ast.Call)):
-            raise A(f"{FN}: new_rotations = rotations * rot.from_euler(...)")
+            raise A(f"{FN}: {orig('new_rotations')} = {orig('rotations')} * rot.from_euler(...) — parent rotation on the LEFT (found `{show(core.norm_expr(v))}`)")
         kw = {k.arg: core.norm_expr(k.value) for k in v.right.keywords}
         if kw.get("angles") != "new_angles":
             raise A(f"{FN}: right factor built from new_angles")
@@ -445,14 +555,31 @@ def translate(src):
         return [core.norm_expr(v.left), core.norm_expr(v.right.func)]
     put(["composeLeft", "composeRight"], "new_rotations=rotations*from_euler(new_angles)", compose)
 
-    def shift():
-        hits = [(t, v) for (t, v, c) in assigns() if t.startswith("new_motl_df.loc[:,[") and "shift_x" in t]
+    def whole_columns(what, probe):
+        """the unique assignment whose target mentions column `probe`: it must replace WHOLE COLUMNS (`frame[[a, b, c]] = values`), because
+        `frame.loc[:, [a, b, c]] = values` writes into the existing columns and pandas 3 raises TypeError when those are int64 (a STAR file
+        with whole-number shifts / angles) — D33"""
+        hits = [(t, v) for (t, v, c) in assigns() if t.startswith("new_motl_df") and f"'{probe}'" in t and t != f"new_motl_df['{probe}']"]
         if len(hits) != 1:
-            raise A(f"{FN}: new_motl_df.loc[:, [shift_x, shift_y, shift_z]] = ...")
+            raise A(f"{FN}: exactly one assignment to the {what} columns of the expanded frame {orig('new_motl_df')}, found {len(hits)}")
         t, v = hits[0]
         tgt = ast.parse(t, mode="eval").body
-        return [src.literal(tgt.slice.elts[1]), core.norm_expr(v)]
+        if not (isinstance(tgt, ast.Subscript) and core.norm_expr(tgt.value) == "new_motl_df" and isinstance(tgt.slice, ast.List)):
+            raise A(f"{FN}: the {what} columns must be assigned as whole columns, `frame[[...]] = values` (found target `{show(t)}`; `.loc[:, [...]] = ` "
+                    f"writes into the existing columns and raises for integer-typed columns under pandas 3)")
+        return src.literal(tgt.slice), v
+
+    def shift():
+        fields, v = whole_columns("shift", "shift_x")
+        return [fields, core.norm_expr(v)]
     put(["shiftFields", "shiftRhs"], "shift+=rotations.apply(center_shift)", shift)
+
+    def angles_out():
+        fields, v = whole_columns("Euler angle", "phi")
+        if core.norm_expr(v) != "new_rotations.as_euler(seq='zxz',degrees=True)":
+            raise A(f"{FN}: [phi,theta,psi] = new_rotations.as_euler(seq='zxz', degrees=True) (found `{show(core.norm_expr(v))}`)")
+        return fields
+    put("angleFieldsOut", "[phi,theta,psi]=new_rotations.as_euler", angles_out)
 
     put("rhoExpr", "rho", text(only("rho")))
     put("theExpr", "the", text(only("the")))
@@ -475,8 +602,6 @@ def translate(src):
             raise A(f"{FN}: new_angles = np.tile(new_angles, (len(self.df), 1))")
         if core.norm_expr(only("new_angles", cyc)()) != "np.zeros((n_subunits,3))":
             raise A(f"{FN}: cyclic new_angles = zeros((n_subunits,3))")
-        if core.norm_expr(only("new_motl_df.loc[:,['phi','theta','psi']]")()) != "new_rotations.as_euler(seq='zxz',degrees=True)":
-            raise A(f"{FN}: [phi,theta,psi] = new_rotations.as_euler")
         return out
     put("polarExprs", "center_shift polar form + tiling", polar)
 
@@ -547,6 +672,14 @@ def translate(src):
         return [nf[0], core.norm_expr(cyc_if[0].test), types, nb["nfold"], int(code[0])]
     put(["strNfoldExpr", "cyclicPrefixTest", "numericTypes", "numericNfoldExpr", "cyclicTypeCode"], "symmetry argument: 'Cn'/'cn' string or number", symspec)
 
+    def helpers():
+        # functions on the path of every call that have no anchor of their own: looking them up puts them under the framework's binding
+        # discipline (bound once, no re-binding / wrapper, documented decorators); their bodies are exercised by the differential run
+        for q in ("Motl.__init__", "Motl.check_df_correct_format"):
+            src.find(REL, q)
+        return True
+    src.anchor("helpers on the call path are plain single definitions (Motl.__init__, Motl.check_df_correct_format)", helpers)
+
     def sig():
         raw = src.find(REL, FN)
         a = raw.args
@@ -591,6 +724,7 @@ def composeLeft : String := {L(G["composeLeft"])}
 def composeRight : String := {L(G["composeRight"])}
 def shiftFields : List String := {LL(G["shiftFields"])}
 def shiftRhs : String := {L(G["shiftRhs"])}
+def angleFieldsOut : List String := {LL(G["angleFieldsOut"])}
 def rhoExpr : String := {L(G["rhoExpr"])}
 def theExpr : String := {L(G["theExpr"])}
 def repTheExpr : String := {L(G["repTheExpr"])}
@@ -643,15 +777,27 @@ def _dy(rng, lo, hi):
     return rng.randint(int(lo * 1024), int(hi * 1024)) / 1024.0
 
 
+NEAR_POLE = [1e-9, 1e-7, 3e-6, 5e-6, 5.7e-6, 5.72957e-6, 5.73e-6, 5.8e-6, 1e-5, 4e-6, 1e-4]   # degrees; 1e-7 rad = 5.7296e-6 degrees: scipy's gimbal threshold
+
+
+def _near_pole(rng):
+    """theta next to 0 / 180 degrees on both sides of scipy's gimbal-lock threshold (|theta| <= 1e-7 rad)"""
+    d = rng.choice(NEAR_POLE) if rng.random() < 0.7 else 10.0 ** rng.uniform(-10, -4)
+    return rng.choice([d, 180.0 - d, 180.0 + d, -d, 360.0 - d])
+
+
 def _angle(rng, theta=False):
     k = rng.random()
     if theta:
         if k < 0.12: return 0.0
         if k < 0.22: return 180.0
         if k < 0.30: return 90.0
+        if k < 0.37: return _near_pole(rng)
+        if k < 0.50: return round(rng.uniform(0.0, 180.0), rng.choice([1, 2, 3]))    # H3: decimal angles as a user types / a STAR file prints them
         return rng.uniform(0.0, 180.0)
     if k < 0.15: return float(rng.choice([0, 90, 180, 270, -90, -180, 360]))
     if k < 0.25: return float(rng.randint(-180, 360))
+    if k < 0.40: return round(rng.uniform(-180.0, 360.0), rng.choice([1, 2, 3]))
     return rng.uniform(-180.0, 360.0)
 
 
@@ -660,7 +806,8 @@ def _coord(rng):
     if k < 0.62: return float(rng.randint(0, 2000))
     if k < 0.72: return float(rng.randint(-300, 300))
     if k < 0.80: return float(rng.randint(-3, 3))          # next to the origin planes: subunits land below -0.5
-    if k < 0.93: return _dy(rng, -50, 2000)
+    if k < 0.88: return _dy(rng, -50, 2000)
+    if k < 0.94: return round(rng.uniform(-50, 2000), rng.choice([1, 2, 3]))     # decimal, off the dyadic grid
     return rng.uniform(-500, 4000)
 
 
@@ -672,7 +819,8 @@ def _shift(rng):
     if k < 0.15: return 0.0
     if k < 0.28: return rng.choice([0.5, -0.5, 1.5, -1.5, 2.5, -2.5])   # exact ties when the offset is 0
     if k < 0.33: return rng.choice([HALF_BELOW, -HALF_BELOW])
-    if k < 0.75: return _dy(rng, -3, 3)
+    if k < 0.65: return _dy(rng, -3, 3)
+    if k < 0.78: return round(rng.uniform(-3, 3), rng.choice([1, 2, 3]))
     return rng.uniform(-10, 10)
 
 
@@ -694,7 +842,9 @@ def _offset(rng, azimuth=False):
     k = rng.random()
     if azimuth:   # off the axis and off the +x half-line: non-zero azimuth
         return "generic", [_dy(rng, -60, 60), rng.choice([-1, 1]) * _dy(rng, 1, 60), _dy(rng, -60, 60)]
-    if k < 0.40: return "generic", [_dy(rng, -60, 60), _dy(rng, -60, 60), _dy(rng, -60, 60)]
+    if k < 0.28: return "generic", [_dy(rng, -60, 60), _dy(rng, -60, 60), _dy(rng, -60, 60)]
+    if k < 0.34: return "decimal", [round(rng.uniform(-60, 60), rng.choice([1, 2, 3])) for _ in range(3)]
+    if k < 0.40: return "whole", [float(rng.randint(-40, 40)), float(rng.randint(-40, 40)), float(rng.randint(-40, 40))]
     if k < 0.52: return "on-axis", [0.0, 0.0, rng.choice([_dy(rng, -60, 60), 7.0, -3.5])]
     if k < 0.62: return "zero", [0.0, 0.0, 0.0]
     if k < 0.76: return "in-plane", [_dy(rng, -60, 60), _dy(rng, -60, 60), 0.0]
@@ -723,18 +873,69 @@ def _ids(rng, N):
     return ids, "unique"
 
 
-def _rows(rng, N):
+# H3 — integer-typed columns: a STAR / EM file whose values in a column are all whole numbers is read as int64; `Motl(df)` keeps the dtypes
+INT_SETS = [("shifts", ["shift_x", "shift_y", "shift_z"]), ("angles", ["phi", "theta", "psi"]), ("shifts+angles", ["shift_x", "shift_y", "shift_z", "phi", "theta", "psi"]),
+            ("coordinates", ["x", "y", "z"]), ("ids", ["subtomo_id", "tomo_id", "object_id", "class", "geom1", "geom2", "geom4", "geom5"]),
+            ("one-shift", ["shift_y"]), ("one-angle", ["theta"]), ("all", list(FIELDS))]
+
+
+def _intcols(rng):
+    k = rng.random()
+    if k < 0.25: return INT_SETS[0]
+    if k < 0.45: return INT_SETS[1]
+    if k < 0.60: return INT_SETS[2]
+    if k < 0.80: return INT_SETS[7]
+    return rng.choice(INT_SETS[3:7])
+
+
+def _labels(rng, N):
+    """H3 — row labels a user's frame carries (`Motl(df)` keeps them): reversed / shuffled / offset / with gaps (after remove_feature) /
+    duplicated (after a concat without ignore_index) / all equal / negative"""
+    kind = rng.choice(["reversed", "shuffled", "offset", "gaps", "duplicated", "duplicated", "all-equal", "negative", "permuted-far"])
+    if kind == "reversed": lab = list(range(N - 1, -1, -1))
+    elif kind == "shuffled":
+        lab = list(range(N)); rng.shuffle(lab)
+    elif kind == "offset":
+        o = rng.choice([1, 2, 100]); lab = list(range(o, o + N))
+    elif kind == "gaps": lab = sorted(rng.sample(range(3 * N + 4), N))
+    elif kind == "duplicated":
+        a = (N + 1) // 2
+        lab = list(range(a)) + list(range(N - a))         # pd.concat([df1, df2]) keeps both 0..k
+        if rng.random() < 0.4: rng.shuffle(lab)
+    elif kind == "all-equal": lab = [rng.randint(0, 5)] * N
+    elif kind == "negative": lab = [-(i + 1) for i in range(N)]
+    else:
+        lab = rng.sample(range(1000, 1000 + 5 * N), N)
+    return kind, lab
+
+
+def _rows(rng, N, intcols=None):
     ids, idkind = _ids(rng, N)
     rows = [_row(rng, sid) for sid in ids]
     if idkind == "per-tomogram":
         a = (N + 1) // 2
         for i, r in enumerate(rows): r[IX["tomo_id"]] = 1.0 if i < a else 2.0
+    for c in intcols or []:                # the values of an integer-typed column are whole numbers
+        for r in rows:
+            r[IX[c]] = float(int(round(r[IX[c]])))
     return [[f2b(v) for v in r] for r in rows], idkind
+
+
+def _dress(rng, case, tier):
+    """H3: a share of the cases carries non-default row labels"""
+    if rng.random() < 0.30:
+        case["labelkind"], case["labels"] = _labels(rng, len(case["rows"]))
+    return case
 
 
 def _call(rng, n, form, azimuth=False, sform=None):
     skind, s = _offset(rng, azimuth)
-    return dict(sym=dict(form=form, n=n), s=[f2b(v) for v in s], skind=skind, sform=sform or rng.choice(SFORMS))
+    sform = sform or rng.choice(SFORMS)
+    if all(v == int(v) for v in s) and sform != "ndarray" and rng.random() < 0.6:
+        sform = {"list": "intlist", "tuple": "inttuple"}[sform]      # [10, 0, 0] as the docstring example / the pinned tests write it
+    elif all(v == int(v) for v in s) and sform == "ndarray" and rng.random() < 0.5:
+        sform = "intarray"                                             # np.array([10, 0, 0]): an int64 array
+    return dict(sym=dict(form=form, n=n), s=[f2b(v) for v in s], skind=skind, sform=sform)
 
 
 def _case(rng, n, form, maxcells, Nmax=100):
@@ -744,6 +945,10 @@ def _case(rng, n, form, maxcells, Nmax=100):
     elif k < 0.90: N = rng.randint(7, 20)
     else: N = rng.randint(21, 100)
     N = max(1, min(N, Nmax, maxcells // n))
+    if rng.random() < 0.14:
+        name, cols = _intcols(rng)
+        rows, idkind = _rows(rng, N, cols)
+        return dict(rows=rows, idkind=idkind, calls=[_call(rng, n, form)], intkind=name, intcols=cols)
     rows, idkind = _rows(rng, N)
     return dict(rows=rows, idkind=idkind, calls=[_call(rng, n, form)])
 
@@ -752,16 +957,30 @@ def _session(rng, n, maxcells, forms):
     """G2: several calls in ONE process on the SAME Motl object, the offset handed over in the SAME ndarray (rewritten in place
     between the calls); the first call has an offset with non-zero azimuth, a later one repeats the symmetry order n"""
     N = max(1, min(rng.randint(1, 5), maxcells // (3 * n)))
-    rows, idkind = _rows(rng, N)
+    extra = {}
+    if rng.random() < 0.12:
+        name, cols = _intcols(rng)
+        rows, idkind = _rows(rng, N, cols)
+        extra = dict(intkind=name, intcols=cols)
+    else:
+        rows, idkind = _rows(rng, N)
     calls = [_call(rng, n, rng.choice(forms), azimuth=True, sform="ndarray"),
              _call(rng, n, rng.choice(forms), azimuth=rng.random() < 0.6, sform="ndarray")]
     if rng.random() < 0.5:
         m = rng.choice([n, rng.randint(1, 12)])
         calls.insert(rng.randint(1, 2), _call(rng, m, rng.choice(forms), sform=rng.choice(["ndarray", "list"])))
-    return dict(rows=rows, idkind=idkind, calls=calls)
+    for c in calls:
+        if c["sform"] == "intarray":      # the session's calls share ONE float ndarray
+            c["sform"] = "ndarray"
+    return dict(rows=rows, idkind=idkind, calls=calls, **extra)
 
 
 def generate(rng, tier, n):
+    for case in _generate(rng, tier, n):
+        yield _dress(rng, case, tier)
+
+
+def _generate(rng, tier, n):
     forms = _forms()
     maxcells = {"quick": 420, "thorough": 2500, "search": 300}[tier]
     made = 0
@@ -770,6 +989,11 @@ def generate(rng, tier, n):
             for form in forms:
                 if made < n:
                     yield _case(rng, nn, form, maxcells); made += 1
+        # the far corner of the quantifier: 100 particles x n = 64 (6400 outputs), and 100 x 63 with integer-typed shifts
+        rows, idkind = _rows(rng, 100)
+        yield dict(rows=rows, idkind=idkind, calls=[_call(rng, 64, "C")]); made += 1
+        rows, idkind = _rows(rng, 100, INT_SETS[0][1])
+        yield dict(rows=rows, idkind=idkind, calls=[_call(rng, 63, "int")], intkind="shifts", intcols=INT_SETS[0][1]); made += 1
     else:                        # quick / search: EVERY n in 1..64 once, on tiny lists, forms cycling from a random start
         off = rng.randrange(len(forms))
         for nn in ALL_NS:
@@ -788,6 +1012,10 @@ def generate(rng, tier, n):
             small = rng.randint(1, 4)
             rows, idkind = _rows(rng, rng.randint(40, 100))
             yield dict(rows=rows, idkind=idkind, calls=[_call(rng, small, rng.choice(forms))])
+        elif k < 0.33:           # numeric arguments outside the statement: the model of int() against the code
+            case = _case(rng, min(nn, 12), "int", maxcells, Nmax=4)
+            case["calls"][0]["sym"] = _outside_sym(rng, case["calls"][0]["sym"]["n"])
+            yield case
         else:
             yield _case(rng, nn, rng.choice(forms), maxcells)
         made += 1
@@ -802,7 +1030,8 @@ def _calls(case):
 
 def key(case):
     import hashlib, json
-    return hashlib.sha1(json.dumps([[(c["sym"], c["s"], c.get("sform")) for c in _calls(case)], case["rows"]], sort_keys=True).encode()).hexdigest()
+    return hashlib.sha1(json.dumps([[(c["sym"], c["s"], c.get("sform")) for c in _calls(case)], case["rows"], case.get("intcols"), case.get("labels")],
+                                   sort_keys=True).encode()).hexdigest()
 
 
 def shrink(case):
@@ -816,15 +1045,32 @@ def _shrink(case):
     rows = case["rows"]
     calls = _calls(case)
     base = dict(rows=rows, idkind=case.get("idkind", "?"), calls=calls)
+    for k in ("intcols", "intkind", "labels", "labelkind"):
+        if case.get(k) is not None:
+            base[k] = case[k]
+    labels = base.get("labels")
+
+    def sub(idx):
+        d = dict(base, rows=[rows[i] for i in idx])
+        if labels is not None:
+            d["labels"] = [labels[i] for i in idx]
+        return d
     if len(calls) > 1:
         for i in range(len(calls)):
             yield dict(base, calls=calls[:i] + calls[i + 1:])
+    if labels is not None:
+        yield {k: v for k, v in base.items() if k not in ("labels", "labelkind")}
+    if base.get("intcols"):
+        yield {k: v for k, v in base.items() if k not in ("intcols", "intkind")}
+        if len(base["intcols"]) > 1:
+            for c in base["intcols"][:6]:
+                yield dict(base, intcols=[c], intkind="shrunk")
     if len(rows) > 1:
         for i in range(min(len(rows), 6)):
-            yield dict(base, rows=[rows[i]])
+            yield sub([i])
         for i in range(min(len(rows) - 1, 5)):
-            yield dict(base, rows=rows[i:i + 2])
-        yield dict(base, rows=rows[: len(rows) // 2])
+            yield sub([i, i + 1])
+        yield sub(range(len(rows) // 2))
     for ci, c in enumerate(calls):
         sym = c["sym"]
 
@@ -833,8 +1079,8 @@ def _shrink(case):
         for m in (7, 4, 3, 2, 1):
             if m < sym["n"]:
                 yield dict(base, calls=[dict(d, sym=dict(d["sym"], n=m)) if d["sym"]["n"] == sym["n"] else d for d in calls])
-        if sym["form"] != "int":
-            yield with_call(sym=dict(sym, form="int"))
+        if sym["form"] not in ("int", "refused", "refusedint"):
+            yield with_call(sym=dict(form="int", n=sym["n"]))
         if c.get("sform", "ndarray") != "ndarray" and len(calls) == 1:
             yield with_call(sform="ndarray")
         for s in ([1.0, 0.0, 0.0], [0.0, 0.0, 1.0], [1.0, 2.0, 3.0]):
@@ -850,21 +1096,51 @@ def _shrink(case):
         v[IX["phi"]], v[IX["theta"]], v[IX["psi"]] = 30.0 + 10 * i, 60.0, 45.0
         simple.append([f2b(x) for x in v])
     if simple != rows:
-        yield dict(base, rows=simple)
+        yield dict(base, rows=simple)      # whole numbers everywhere: compatible with any integer-typed column set
 
 
 # ------------------------------------------------------------------ implementation
+REFUSED = [0.0, -0.0, 0.5, -0.9, 0.999, -1.0, -3.0, -2.5, float("nan"), float("inf"), float("-inf")]   # int() -> 0, negative, or raises
+REFUSED_INT = [0, -1, -4]
+
+
+def _outside_sym(rng, n):
+    """numbers OUTSIDE the statement (it speaks of the order n itself), generated to tie the model of `int(symmetry)` (Lean `truncInt`: truncation
+    toward zero of the exact value) to the code: n + fraction is n-fold; 0, negative numbers, NaN, infinities are refused. Judged against the
+    model only (kind corr), never against the statement."""
+    k = rng.random()
+    if k < 0.5:
+        return dict(form="floatfrac", n=n, frac=rng.choice([0.25, 0.5, 0.9, 0.999999, 1e-9]), np=rng.random() < 0.3)
+    if k < 0.85:
+        return dict(form="refused", n=0, bits=f2b(rng.choice(REFUSED)), np=rng.random() < 0.3)
+    return dict(form="refusedint", n=0, value=rng.choice(REFUSED_INT), np=rng.random() < 0.3)
+
+
 def _symmetry_arg(sym):
     n, form = sym["n"], sym["form"]
     if form == "text":
         return sym["text"]
+    if form == "floatfrac":
+        v = float(n) + sym["frac"]
+        return np.float64(v) if sym.get("np") else v
+    if form == "refused":
+        v = b2f(sym["bits"])
+        return np.float64(v) if sym.get("np") else v
+    if form == "refusedint":
+        return np.int64(sym["value"]) if sym.get("np") else int(sym["value"])
     return {"C": f"C{n}", "c": f"c{n}", "int": int(n), "float": float(n), "npint": np.int64(n), "npfloat": np.float64(n),
             "Csp": f"C {n}", "C0": f"C0{n}", "csp0": f"c  00{n}"}[form]
 
 
 def _sym_wire(sym):
+    """the argument AS GIVEN: a string as code points, an integer as itself, a float as its bit pattern — `int(symmetry)` is taken by the Lean model
+    (`truncInt`: truncation toward zero of the exact value), not by the harness"""
     a = _symmetry_arg(sym)
-    return {"str": [ord(c) for c in a]} if isinstance(a, str) else {"num": int(a)}
+    if isinstance(a, str):
+        return {"str": [ord(c) for c in a]}
+    if isinstance(a, (float, np.floating)):
+        return {"numf": f2b(float(a))}
+    return {"num": a.item() if isinstance(a, np.integer) else a}
 
 
 def _where(e):
@@ -903,8 +1179,15 @@ def run_impl(case):
     import pandas as pd
     from cryocat import cryomotl
     vals = [[b2f(b) for b in r] for r in case["rows"]]
-    df = pd.DataFrame(vals, columns=FIELDS, dtype=float)
-    m = cryomotl.Motl(df)
+
+    def mk():
+        df = pd.DataFrame(vals, columns=FIELDS, dtype=float)
+        for c in case.get("intcols") or []:           # what Starfile.read / pd.read_csv give for a column of whole numbers
+            df[c] = df[c].astype("int64")
+        if case.get("labels") is not None:            # `Motl(df)` keeps the caller's row labels
+            df.index = list(case["labels"])
+        return cryomotl.Motl(df)
+    m = mk()
     before = _frame_sig(m.df)
     shared = None       # the caller-owned ndarray handed to every call that takes its offset as ndarray
     outs = []
@@ -919,6 +1202,12 @@ def run_impl(case):
             arg = shared
         elif sform == "list":
             arg = list(svals)
+        elif sform == "intlist":
+            arg = [int(v) for v in svals]
+        elif sform == "inttuple":
+            arg = tuple(int(v) for v in svals)
+        elif sform == "intarray":
+            arg = np.array([int(v) for v in svals], dtype=np.int64)
         else:
             arg = tuple(svals)
         sym = _symmetry_arg(c["sym"])
@@ -930,12 +1219,14 @@ def run_impl(case):
         except Exception as e:
             rec = {"error": f"{type(e).__name__}: {str(e)[:300]}", "where": _where(e)}
         after_s = [f2b(float(x)) for x in arg]
-        rec["s_intact"] = (after_s == c["s"]) and type(arg).__name__ == {"ndarray": "ndarray", "list": "list", "tuple": "tuple"}[sform]
+        rec["s_intact"] = (after_s == c["s"]) and type(arg).__name__ == {"ndarray": "ndarray", "list": "list", "tuple": "tuple", "intlist": "list",
+                                                                         "inttuple": "tuple", "intarray": "ndarray"}[sform] \
+            and (sform != "intarray" or arg.dtype == np.int64) and (sform not in ("intlist", "inttuple") or all(type(x) is int for x in arg))
         sig = _frame_sig(m.df)
         rec["df_intact"] = sig == before
         if not rec["df_intact"]:
             rec["df_change"] = next((k for k in ("cols", "dtypes", "index", "cells") if sig[k] != before[k]), "?")
-            m = cryomotl.Motl(pd.DataFrame(vals, columns=FIELDS, dtype=float))   # later calls are judged on the intended input
+            m = mk()   # later calls are judged on the intended input
         outs.append(rec)
     return dict(calls=outs)
 
@@ -967,7 +1258,10 @@ def _maxdev(case, obs, resps):
             for u, r in zip(subs, out):
                 u, r = _f(u), _f(r)
                 M = _zxz(r[IX["phi"]], r[IX["theta"]], r[IX["psi"]])
-                dev = max(dev, float(np.max(np.abs(M - np.array(u[20:29]).reshape(3, 3)))))
+                W = np.array(u[20:29]).reshape(3, 3)
+                dm = float(np.max(np.abs(M - W)))
+                if not (_orient_tol(W) > TOL and dm <= _orient_tol(W)):     # inside scipy's gimbal zone the Euler triple itself is off by <= 2 sin(theta)
+                    dev = max(dev, dm)
                 for a, b in (("x", "shift_x"), ("y", "shift_y"), ("z", "shift_z")):
                     dev = max(dev, abs((r[IX[a]] + r[IX[b]]) - (u[IX[a]] + u[IX[b]])))
         return dev
@@ -1051,7 +1345,7 @@ def _spec(parents, n, s, rows, sym_txt):
         want = R @ rzk[k]
         d = float(np.max(np.abs(want - got)))
         who = f"parent row {j} (id {P[IX['subtomo_id']]}) subunit {k1}"
-        if not d <= TOL:
+        if not d <= _orient_tol(want):
             return dict(kind="spec", clause="orientation", detail=f"{sym_txt}: {who}: orientation differs from R*Rz(360*{k}/{n}) by {d:.3g}")
         wantp = centre + want @ s
         d = float(np.max(np.abs(wantp - gotp)))
@@ -1085,6 +1379,22 @@ def _judge_call(case, ci, c, o, m):
     n = c["sym"]["n"]
     sym_txt = repr(_symmetry_arg(c["sym"]))
     tag = f"call {ci + 1}/{len(_calls(case))} " if len(_calls(case)) > 1 else ""
+    form = c["sym"]["form"]
+    if form in ("refused", "refusedint"):
+        # outside the statement (which starts at n >= 1): model and code must both refuse — int() of NaN / inf raises, nfold = int(x) <= 0 cannot be expanded
+        if m is None or "error" in m:
+            return [dict(kind="corr", clause="model-error", detail=f"{tag}{m}")]
+        refuses = m.get("subs") is None and (m.get("kind") in ("negative", "raises") or (m.get("kind") == "cyclic" and m.get("n") == 0))
+        if not refuses:
+            return [dict(kind="corr", clause="symmetry-vs-model", detail=f"{tag}{sym_txt}: the harness expects the model to refuse, it says {m.get('kind')} n={m.get('n')}")]
+        if "error" not in o:
+            return [dict(kind="corr", clause="refusal-vs-model", detail=f"{tag}{sym_txt}: the model refuses ({m.get('kind')}, nfold=int(symmetry) {'raises' if m.get('kind') == 'raises' else '<= 0'}) "
+                         f"but the implementation returned {o.get('nrows')} rows")]
+        return []
+    if form == "floatfrac":
+        # outside the statement too: int() truncates, the call is n-fold; everything found here is a disagreement with the MODEL of int() (corr)
+        out = _judge_call(case, ci, dict(c, sym=dict(form="float", n=n)), o, m)
+        return [dict(f, kind="corr", clause="int-truncation:" + f["clause"], detail=f"{tag}{sym_txt} (int() truncates to {n}): " + f["detail"]) for f in out]
     if "error" in o:
         if not o.get("where"):
             # G4: nothing of the library on the traceback — a harness / third-party failure is not a finding against the statement
@@ -1130,7 +1440,7 @@ def _judge_call(case, ci, c, o, m):
         M = np.array(u[20:29]).reshape(3, 3)
         got = _zxz(r[IX["phi"]], r[IX["theta"]], r[IX["psi"]])
         d = float(np.max(np.abs(M - got)))
-        if not d <= TOL:
+        if not d <= _orient_tol(M):
             return [dict(kind="corr", clause="orientation-vs-model", detail=f"{tag}output {i} (sorted parent {i // n}, subunit {i % n + 1}): differs by {d:.3g}")]
         for a, b in (("x", "shift_x"), ("y", "shift_y"), ("z", "shift_z")):
             pu, pr = u[IX[a]] + u[IX[b]], r[IX[a]] + r[IX[b]]
@@ -1176,12 +1486,15 @@ def stats(case, obs, resps):
     N = len(case["rows"])
     oc = _obs_calls(case, obs)
     ids = [r[IX["subtomo_id"]] for r in case["rows"]]
-    d = {"n": [c["sym"]["n"] for c in calls], "n_class": ["divides-360" if 360 % c["sym"]["n"] == 0 else "not-dividing-360" for c in calls],
+    d = {"n": [c["sym"]["n"] for c in calls],
+         "n_class": ["refused (outside the statement)" if c["sym"]["n"] == 0 else ("divides-360" if 360 % c["sym"]["n"] == 0 else "not-dividing-360") for c in calls],
          "form": [c["sym"]["form"] for c in calls], "offset": [c.get("skind", "?") for c in calls], "offset_passed_as": [c.get("sform", "ndarray") for c in calls],
          "N": "1" if N == 1 else ("2-6" if N <= 6 else ("7-20" if N <= 20 else "21-100")),
          "calls_in_one_process_on_one_object": len(calls),
          "same_n_repeated_in_session": "yes" if len({c["sym"]["n"] for c in calls}) < len(calls) else "no",
          "parent_ids": "repeated" if len(set(ids)) < len(ids) else "unique", "idkind": case.get("idkind", "corpus"),
+         "integer_typed_columns": case.get("intkind", "none" if not case.get("intcols") else "corpus"),
+         "row_labels": case.get("labelkind", "default RangeIndex" if case.get("labels") is None else "corpus"),
          "impl": ["raised" if "error" in o else "returned" for o in oc],
          "returned_dtypes": sorted({o.get("kinds", "?") for o in oc if "error" not in o})}
     dev = _maxdev(case, obs, resps)
@@ -1206,12 +1519,16 @@ def stats(case, obs, resps):
     d["coordinates_below_-0.5"] = "some" if below else "none"
     thetas = [b2f(r[IX["theta"]]) for r in case["rows"]]
     d["gimbal_parent"] = "yes" if any(t in (0.0, 180.0) for t in thetas) else "no"
+    st = [abs(math.sin(math.radians(t))) for t in thetas if t not in (0.0, 180.0)]
+    d["near_pole_parent"] = ("inside scipy's gimbal zone (0<|sin theta|<=1e-7)" if any(x <= GIMBAL_EPS for x in st) else
+                             ("just outside (1e-7<|sin theta|<=1e-5)" if any(x <= 1e-5 for x in st) else "no"))
     return d
 
 
 def sample_view(case):
     calls = _calls(case)
     return dict(calls=[dict(symmetry=repr(_symmetry_arg(c["sym"])), s=_f(c["s"]), offset_passed_as=c.get("sform", "ndarray")) for c in calls],
+                integer_typed_columns=case.get("intcols"), row_labels=(case.get("labels") or [])[:12] or None,
                 n_parents=len(case["rows"]), parent_ids=[b2f(r[IX["subtomo_id"]]) for r in case["rows"]][:12],
                 first_parent=dict(zip(FIELDS, _f(case["rows"][0]))))
 
@@ -1225,7 +1542,7 @@ def probes(rng):
     from scipy.spatial.transform import Rotation as rot
     import decimal
     out = []
-    worst_m, worst_rt, worst_mul = 0.0, 0.0, 0.0
+    worst_m, worst_rt, worst_mul, worst_zone, nzone = 0.0, 0.0, 0.0, 0.0, 0
     with warnings.catch_warnings():
         warnings.simplefilter("ignore")
         for i in range(300):
@@ -1239,10 +1556,17 @@ def probes(rng):
             v = np.array([rng.uniform(-50, 50) for _ in range(3)])
             worst_mul = max(worst_mul, float(np.max(np.abs(R.apply(v) - _zxz(*a) @ v))) / 50.0)
             e = (R * Q).as_euler("zxz", degrees=True)
-            worst_rt = max(worst_rt, float(np.max(np.abs(_zxz(*e) - (R * Q).as_matrix()))))
+            T = (R * Q).as_matrix()
+            d = float(np.max(np.abs(_zxz(*e) - T)))
+            if _orient_tol(T) > TOL:        # inside scipy's gimbal zone: the triple is off by <= 2 sin(theta) (see _orient_tol), probed against that bound
+                worst_zone = max(worst_zone, d / _orient_tol(T)); nzone += 1
+            else:
+                worst_rt = max(worst_rt, d)
     out.append(dict(name="scipy from_euler('zxz',degrees) = Rz(psi)Rx(theta)Rz(phi)", ok=worst_m <= 1e-12, detail=f"max dev {worst_m:.3g} over 300 triples"))
     out.append(dict(name="scipy Rotation `*` = matrix product, apply = matrix-vector", ok=worst_mul <= 1e-12, detail=f"max dev {worst_mul:.3g}"))
     out.append(dict(name="scipy as_euler('zxz') o from_euler reproduces the rotation (incl. gimbal lock)", ok=worst_rt <= 1e-9, detail=f"max dev {worst_rt:.3g}"))
+    out.append(dict(name="scipy as_euler('zxz') with 0 < |sin theta| <= 1e-7: the returned triple is within 1e-9 + 2 sin(theta) of the rotation", ok=worst_zone <= 1.0,
+                    detail=f"{nzone} triples inside the zone, worst deviation / bound = {worst_zone:.3g}"))
     xs = [0.5, -0.5, 1.5, -1.5, 2.5, -2.5, HALF_BELOW, -HALF_BELOW, 0.5000000000000001, -0.5000000000000001, 1.4999999999999998, 4503599627370495.5,
           -4503599627370495.5, 9007199254740993.0, 0.0, -0.0, 1e-320, 123456.5, -123456.5] + [rng.uniform(-3000, 3000) for _ in range(40)] + [_dy(rng, -50, 50) for _ in range(40)]
     try:
@@ -1261,11 +1585,13 @@ LEVEL_TEXT = ("Lean 4 theorems about an executable model of Motl.split_in_asymme
               "parent in stable id order, ids 1..n*N unique, geom5/geom2 bookkeeping, "
               "orientation R*Rz(k*a), complete position = centre + orientation*s (so every subunit maps back to the centre), subunits related by rotations "
               "about the parent's own z axis (conjugates R*Rz*R^T fixing R e_z), closure Rz(a)^n=1, integer x,y,z and |shift|<=1/2 for any rounding to a nearest integer; "
-              "over the reals the step angle is 2*pi/n; the symmetry string is parsed in Lean (last run of digits; 'C'+str(n), blanks, zero padding proved to give n); "
+              "over the reals the step angle is 2*pi/n; the code's own arithmetic for the offset (polar form: sqrt, arctan2, cos/sin of the+deg2rad(k*360/n)) is modelled (`expandP`, "
+              "what the driver runs) and proved equal to the Cartesian rotation, abstractly and over R with arctan2 = Complex.arg; the symmetry string is parsed in Lean (last run of "
+              "digits; 'C'+str(n), blanks, zero padding proved to give n) and int() of a numeric argument is modelled as truncation toward zero of its exact value; "
               "the model is tied to the source by regenerated constants/field names/expression shapes, a whole-body dump with alpha-renamed locals, and by a differential run of "
               "the real function against the model on generated lists (every n in 1..64 in EVERY tier)")
 LEVEL_NOTE = ("trusted/modelled: Lean kernel; translator anchors; scipy Rotation (from_euler/as_euler/*/apply) and numpy trigonometry/polar form "
               "(probed and compared with tolerance 1e-9, not proved); Decimal ROUND_HALF_UP on a float = exact rational rounding (probed each run); pandas iloc/argsort/repeat/tile "
               "positional semantics (compared on every case); Python's \\d / int() on non-ASCII digits is outside the model")
-TECHNIQUE = "Lean 4 proof (ring identities over any commutative ring, list induction, stable merge sort, rational rounding, real trigonometry for the step angle, digit-string parsing) + regenerated anchors + differential correspondence"
+TECHNIQUE = "Lean 4 proof (ring identities over any commutative ring, list induction, stable merge sort, rational rounding, real trigonometry for the step angle and the polar form (Complex.arg), digit-string parsing, truncation toward zero) + regenerated anchors + differential correspondence"
 DESIGN_REF = "DESIGN.md section 4, C10"
